@@ -106,7 +106,7 @@ uint64_t Avtp_Sensor_GetMessageTimestamp(Avtp_Sensor_t* pdu)
 
 void Avtp_Sensor_SetField(Avtp_Sensor_t* pdu, Avtp_SensorFields_t field, uint64_t value)
 {
-    Avtp_SetField(Avtp_SensorFieldDesc, AVTP_SENSOR_FIELD_MAX, (uint8_t *)pdu, (uint8_t)field, value);
+    Avtp_SetField(Avtp_SensorFieldDesc, AVTP_SENSOR_FIELD_MAX, (uint8_t *)pdu, field, value);
 }
 
 void Avtp_Sensor_SetAcfMsgType(Avtp_Sensor_t* pdu, uint8_t value)
